@@ -62,6 +62,11 @@ def gen_cases(run):
     for i in range(n_rand):
         inf, ws = G.random_bitmap(rng)
         cases.append(P("a" if (i % 4 == 0 or len(ws) <= 2) else "s", inf, ws))
+    # --- output lengths enumerated (asprintf == snprintf at every length): for each format x
+    # finite/infinite one bitmap per text length 1..320 and around every power of two up to 4096
+    for f, L, inf, ws in G.length_targeted_bitmaps(rng):
+        cases.append("P s%s %d %s" % (f, inf, " ".join("%x" % w for w in ws)))
+        run.bump("print-length-targeted")
     # --- strings
     for h in G.HOSTILE:
         for f in "hlt":
@@ -256,6 +261,7 @@ def check(run, replay=None):
         couts = [f.result() for f in fc]
     C.log("[C04] implementation %.1fs" % (time.time() - t0))
     classes = {}     # class key -> (size, case, what, replay, no_input)
+    lens_seen = {}
     n_shrunk = [0]
 
     def report(cls, case, what, replay_text, no_input=False):
@@ -297,6 +303,12 @@ def check(run, replay=None):
                 nontriv = not o[-1].startswith("s %s -1" % c[2])
                 run.bump("parse-accepted" if nontriv else "parse-rejected")
             run.count("\n".join(o), nontrivial=nontriv, sample={"case": c, "impl": o[:4], "model": m[:4]}, kind=kind)
+            if c[0] == "P":
+                inf = o[0].split(" ")[1]
+                for line in o[1:]:
+                    tt = line.split(" ", 3)
+                    if tt[0] == "p" and tt[2].isdigit():
+                        lens_seen.setdefault((tt[1], inf), set()).add(int(tt[2]))
             bad = spec_check(c, o)
             for key, what in bad:
                 report(key, c, what, "kind: input\ncase: %s\nimpl:\n%s\nmodel:\n%s\n" % (c, "\n".join(o[:12]), "\n".join(m[:12])))
@@ -312,6 +324,14 @@ def check(run, replay=None):
     for cls in sorted(classes):
         size, c, what, rep, no_input = classes[cls]
         run.violation("%s:%s" % (cls, c.replace(" ", "_")[:80]), what, rep, no_input=no_input)
+    # which text lengths the asprintf == snprintf / exact-size-buffer clause was evaluated at
+    want = set(G.target_lengths())
+    for f in "hlt":
+        for inf in "01":
+            got = lens_seen.get((f, inf), set())
+            run.cov["text_lengths_%s_%s" % (f, "infinite" if inf == "1" else "finite")] = {
+                "distinct": len(got), "max": max(got) if got else 0,
+                "targets_not_reached (impossible for the format)": sorted(want - got)[:40]}
     run.cov["corpus_cases"] = n_corpus
     run.cov["cases"] = len(cases)
     run.cov["observations"] = [
